@@ -1,8 +1,8 @@
 ------------------------------ MODULE HttpResp ------------------------------
 (* Property C07, message half: HTTP/1.x *responses* as records and as byte strings.
 
-   Part 1 (constant level, written from RFC 7230 section 3 / RFC 7231 section 6.1 / RFC 6265 section 4.1,
-   not from the Rust code):
+   Part 1 (module HttpRespSyntax; constant level, written from RFC 7230 section 3 / RFC 7231 section 6.1 /
+   RFC 6265 section 4.1, not from the Rust code):
      Phrases(code)        registered reason phrase(s) of a status code
      RenderResp(r, ph)    record -> bytes (status line, one line per header, blank line, body)
      SrvWire(..)          what a conforming *server* may put on the wire for a response: any registered
@@ -11,7 +11,7 @@
                           chunks, hex sizes in either case
      DenoteResp(w)        bytes -> record: the meaning of a response message (grammar-directed)
      SetCookieValue(c)    Set-Cookie header value of a cookie with any subset of the 7 attributes
-   Part 2 (state machine): transcription of the two code paths of humphrey/src/http/response.rs,
+   Part 2 (this module, state machine): transcription of the two code paths of humphrey/src/http/response.rs,
    one action per statement group:
      Ser_*   impl From<Response> for Vec<u8>
      Par_*   Response::from_stream / parse_chunk, reading from a stream that delivers the bytes in
@@ -33,300 +33,9 @@
      WrongCode        - one row of the code table is wrong (307 emitted as 306)
      NoBlankLine      - only one CRLF between the last header and the body
      TeKeptAfterDecode- Transfer-Encoding left in the headers of a decoded chunked response *)
-EXTENDS Naturals, Sequences, FiniteSets, TLC
+EXTENDS HttpRespSyntax
 
 CONSTANT Dev
-
------------------------------------------------------------------------------
-(* Strings as byte sequences                                                  *)
-CR   == "\r"
-LF   == "\n"
-CRLF == "\r\n"
-SP   == " "
-HTAB == "\t"
-
-At(s, i)   == SubSeq(s, i, i)
-Take(s, n) == SubSeq(s, 1, n)
-Drop(s, n) == SubSeq(s, n + 1, Len(s))
-StartsWith(s, p) == Len(s) >= Len(p) /\ Take(s, Len(p)) = p
-Min(a, b) == IF a <= b THEN a ELSE b
-
-\* least i >= from such that p occurs in s at i; 0 when there is none
-RECURSIVE Find(_, _, _)
-Find(s, p, from) ==
-  IF from + Len(p) - 1 > Len(s) THEN 0
-  ELSE IF SubSeq(s, from, from + Len(p) - 1) = p THEN from
-  ELSE Find(s, p, from + 1)
-
-RECURSIVE LFPositions(_, _)
-LFPositions(s, from) == LET i == Find(s, LF, from) IN IF i = 0 THEN <<>> ELSE <<i>> \o LFPositions(s, i + 1)
-
-RECURSIVE Concat(_)
-Concat(ss) == IF ss = <<>> THEN "" ELSE Head(ss) \o Concat(Tail(ss))
-
-LowerAlpha == "abcdefghijklmnopqrstuvwxyz"
-UpperAlpha == "ABCDEFGHIJKLMNOPQRSTUVWXYZ"
-LowerMap == [c \in {At(UpperAlpha, i) : i \in 1..26} |-> At(LowerAlpha, CHOOSE i \in 1..26 : At(UpperAlpha, i) = c)]
-UpperMap == [c \in {At(LowerAlpha, i) : i \in 1..26} |-> At(UpperAlpha, CHOOSE i \in 1..26 : At(LowerAlpha, i) = c)]
-RECURSIVE MapChars(_, _)
-MapChars(f, s) == IF s = "" THEN ""
-                  ELSE (IF At(s, 1) \in DOMAIN f THEN f[At(s, 1)] ELSE At(s, 1)) \o MapChars(f, Drop(s, 1))
-Lower(s) == MapChars(LowerMap, s)
-Upper(s) == MapChars(UpperMap, s)
-
-IsOWS(c) == c = SP \/ c = HTAB
-RECURSIVE TrimStart(_)
-TrimStart(s) == IF s # "" /\ IsOWS(At(s, 1)) THEN TrimStart(Drop(s, 1)) ELSE s
-RECURSIVE TrimEndOWS(_)
-TrimEndOWS(s) == IF s # "" /\ IsOWS(At(s, Len(s))) THEN TrimEndOWS(Take(s, Len(s) - 1)) ELSE s
-TrimOWS(s) == TrimEndOWS(TrimStart(s))
-RECURSIVE TrimEndWS(_)
-TrimEndWS(s) == IF s # "" /\ At(s, Len(s)) \in {SP, HTAB, CR, LF} THEN TrimEndWS(Take(s, Len(s) - 1)) ELSE s
-
-\* numbers.  NaN is the "not a number" result (TLC integers are 32 bit; all values here are < 10^6)
-NaN == 99999999
-DecDigits == "0123456789"
-HexLower  == "0123456789abcdef"
-HexUpper  == "0123456789ABCDEF"
-DecMap == [c \in {At(DecDigits, i) : i \in 1..10} |-> (CHOOSE i \in 1..10 : At(DecDigits, i) = c) - 1]
-HexMap == [c \in {At(HexLower, i) : i \in 1..16} \cup {At(HexUpper, i) : i \in 11..16} |->
-             IF \E i \in 1..16 : At(HexLower, i) = c THEN (CHOOSE i \in 1..16 : At(HexLower, i) = c) - 1
-             ELSE (CHOOSE i \in 11..16 : At(HexUpper, i) = c) - 1]
-
-RECURSIVE RadixVal(_, _, _, _)
-RadixVal(map, base, s, acc) ==
-  IF s = "" THEN acc
-  ELSE IF At(s, 1) \notin DOMAIN map THEN NaN
-  ELSE RadixVal(map, base, Drop(s, 1), acc * base + map[At(s, 1)])
-DecVal(s) == IF s = "" \/ Len(s) > 7 THEN NaN ELSE RadixVal(DecMap, 10, s, 0)
-HexVal(s) == IF s = "" \/ Len(s) > 5 THEN NaN ELSE RadixVal(HexMap, 16, s, 0)
-
-RECURSIVE Dec(_)
-Dec(n) == IF n < 10 THEN At(DecDigits, n + 1) ELSE Dec(n \div 10) \o At(DecDigits, (n % 10) + 1)
-RECURSIVE Hex(_, _)
-Hex(n, upper) == LET tab == IF upper THEN HexUpper ELSE HexLower IN
-                 IF n < 16 THEN At(tab, n + 1) ELSE Hex(n \div 16, upper) \o At(tab, (n % 16) + 1)
-
------------------------------------------------------------------------------
-(* Status codes.  One row per variant of humphrey::http::StatusCode (status.rs); `p` is the reason  *)
-(* phrase registered by RFC 7231 section 6.1 (IANA HTTP Status Code Registry), `alt` the older RFC    *)
-(* 2616 phrase where the registry changed it - DESIGN 5a: both are accepted for 413, 414, 416.        *)
-StatusRows == <<
-  [c |-> 100, p |-> "Continue",                       alt |-> ""],
-  [c |-> 101, p |-> "Switching Protocols",            alt |-> ""],
-  [c |-> 200, p |-> "OK",                             alt |-> ""],
-  [c |-> 201, p |-> "Created",                        alt |-> ""],
-  [c |-> 202, p |-> "Accepted",                       alt |-> ""],
-  [c |-> 203, p |-> "Non-Authoritative Information",  alt |-> ""],
-  [c |-> 204, p |-> "No Content",                     alt |-> ""],
-  [c |-> 205, p |-> "Reset Content",                  alt |-> ""],
-  [c |-> 206, p |-> "Partial Content",                alt |-> ""],
-  [c |-> 300, p |-> "Multiple Choices",               alt |-> ""],
-  [c |-> 301, p |-> "Moved Permanently",              alt |-> ""],
-  [c |-> 302, p |-> "Found",                          alt |-> ""],
-  [c |-> 303, p |-> "See Other",                      alt |-> ""],
-  [c |-> 304, p |-> "Not Modified",                   alt |-> ""],
-  [c |-> 305, p |-> "Use Proxy",                      alt |-> ""],
-  [c |-> 307, p |-> "Temporary Redirect",             alt |-> ""],
-  [c |-> 400, p |-> "Bad Request",                    alt |-> ""],
-  [c |-> 401, p |-> "Unauthorized",                   alt |-> ""],
-  [c |-> 403, p |-> "Forbidden",                      alt |-> ""],
-  [c |-> 404, p |-> "Not Found",                      alt |-> ""],
-  [c |-> 405, p |-> "Method Not Allowed",             alt |-> ""],
-  [c |-> 406, p |-> "Not Acceptable",                 alt |-> ""],
-  [c |-> 407, p |-> "Proxy Authentication Required",  alt |-> ""],
-  [c |-> 408, p |-> "Request Timeout",                alt |-> ""],
-  [c |-> 409, p |-> "Conflict",                       alt |-> ""],
-  [c |-> 410, p |-> "Gone",                           alt |-> ""],
-  [c |-> 411, p |-> "Length Required",                alt |-> ""],
-  [c |-> 412, p |-> "Precondition Failed",            alt |-> ""],
-  [c |-> 413, p |-> "Payload Too Large",              alt |-> "Request Entity Too Large"],
-  [c |-> 414, p |-> "URI Too Long",                   alt |-> "Request-URI Too Long"],
-  [c |-> 415, p |-> "Unsupported Media Type",         alt |-> ""],
-  [c |-> 416, p |-> "Range Not Satisfiable",          alt |-> "Requested Range Not Satisfiable"],
-  [c |-> 417, p |-> "Expectation Failed",             alt |-> ""],
-  [c |-> 500, p |-> "Internal Server Error",          alt |-> ""],
-  [c |-> 501, p |-> "Not Implemented",                alt |-> ""],
-  [c |-> 502, p |-> "Bad Gateway",                    alt |-> ""],
-  [c |-> 503, p |-> "Service Unavailable",            alt |-> ""],
-  [c |-> 504, p |-> "Gateway Timeout",                alt |-> ""],
-  [c |-> 505, p |-> "HTTP Version Not Supported",     alt |-> ""] >>
-
-Codes == { StatusRows[i].c : i \in 1..Len(StatusRows) }
-RowOf == [c \in Codes |-> StatusRows[CHOOSE i \in 1..Len(StatusRows) : StatusRows[i].c = c]]
-Row(c) == RowOf[c]
-Phrases(c) == {Row(c).p} \cup (IF Row(c).alt = "" THEN {} ELSE {Row(c).alt})
-\* RFC 7230 3.3.3 rule 1: these never carry a body; RFC 7231 6.3.6: neither does 205
-Bodiless(c) == c < 200 \/ c = 204 \/ c = 205 \/ c = 304
-
------------------------------------------------------------------------------
-(* Responses as records: [version, code, headers (sequence of [n, v]), body]                       *)
-Hdr(n, v) == [n |-> n, v |-> v]
-Resp(ver, c, h, b) == [version |-> ver, code |-> c, headers |-> h, body |-> b]
-
-\* Equality of header lists in the sense of DESIGN 5a (C02/C07): for every header name, compared
-\* case-insensitively, the same list of values in the same order; order between different names is free.
-LowerNames(h) == [i \in 1..Len(h) |-> Hdr(Lower(h[i].n), h[i].v)]
-ValsOf(lh, nm) == LET s == SelectSeq(lh, LAMBDA x : x.n = nm) IN [i \in 1..Len(s) |-> s[i].v]
-SameHeaders(a, b) ==
-  LET la == LowerNames(a)
-      lb == LowerNames(b)
-  IN /\ Len(a) = Len(b)
-     /\ \A nm \in {la[i].n : i \in 1..Len(la)} \cup {lb[i].n : i \in 1..Len(lb)} : ValsOf(la, nm) = ValsOf(lb, nm)
-HasHdr(h, lname)   == \E i \in 1..Len(h) : Lower(h[i].n) = lname
-FirstVal(h, lname) == LET lh == LowerNames(h) IN
-                      lh[CHOOSE i \in 1..Len(lh) : lh[i].n = lname /\ \A j \in 1..(i - 1) : lh[j].n # lname].v
-Without(h, lname)  == SelectSeq(h, LAMBDA x : Lower(x.n) # lname)
-
-RespEq(a, b) == /\ a.version = b.version /\ a.code = b.code /\ a.body = b.body
-                /\ SameHeaders(a.headers, b.headers)
-
-\* "carries the Content-Length the server adds or has no body" (the domain of the round-trip claim)
-FramedOrEmpty(r) ==
-  IF HasHdr(r.headers, "content-length")
-  THEN ValsOf(LowerNames(r.headers), "content-length") = <<Dec(Len(r.body))>>
-  ELSE r.body = ""
-
------------------------------------------------------------------------------
-(* Rendering                                                                                        *)
-StatusLine(ver, c, ph) == ver \o SP \o Dec(c) \o SP \o ph
-RECURSIVE HeaderBlock(_)
-HeaderBlock(h) == IF h = <<>> THEN "" ELSE Head(h).n \o ": " \o Head(h).v \o CRLF \o HeaderBlock(Tail(h))
-RenderResp(r, ph) == StatusLine(r.version, r.code, ph) \o CRLF \o HeaderBlock(r.headers) \o CRLF \o r.body
-
-\* Set-Cookie (RFC 6265 4.1): cookie-pair *( "; " cookie-av ).  c.attrs is the set of attributes present.
-AttrNames == {"Expires", "Max-Age", "Domain", "Path", "SameSite", "Secure", "HttpOnly"}
-AttrOrder == <<"Expires", "Max-Age", "Domain", "Path", "SameSite", "Secure", "HttpOnly">>
-CookieAv(c, a) ==
-  CASE a = "Expires"  -> "Expires=" \o c.expires
-    [] a = "Max-Age"  -> "Max-Age=" \o Dec(c.maxage)
-    [] a = "Domain"   -> "Domain=" \o c.domain
-    [] a = "Path"     -> "Path=" \o c.path
-    [] a = "SameSite" -> "SameSite=" \o c.samesite
-    [] a = "Secure"   -> "Secure"
-    [] a = "HttpOnly" -> "HttpOnly"
-CookieAvs(c) == { CookieAv(c, a) : a \in c.attrs }
-RECURSIVE AvString(_, _)
-AvString(c, i) == IF i > Len(AttrOrder) THEN ""
-                  ELSE (IF AttrOrder[i] \in c.attrs THEN "; " \o CookieAv(c, AttrOrder[i]) ELSE "") \o AvString(c, i + 1)
-SetCookieValue(c) == c.name \o "=" \o c.value \o AvString(c, 1)
-\* meaning of a Set-Cookie value: the pair and the *set* of attributes (their order is not significant)
-RECURSIVE SplitOn(_, _)
-SplitOn(s, sep) == LET i == Find(s, sep, 1) IN
-                   IF i = 0 THEN <<s>> ELSE <<Take(s, i - 1)>> \o SplitOn(Drop(s, i + Len(sep) - 1), sep)
-DenoteSetCookie(s) == LET parts == SplitOn(s, "; ") IN
-                      [pair |-> Head(parts), avs |-> {parts[i] : i \in 2..Len(parts)}, n |-> Len(parts) - 1]
-CookieMeans(s, c) == LET d == DenoteSetCookie(s) IN
-                     d.pair = c.name \o "=" \o c.value /\ d.avs = CookieAvs(c) /\ d.n = Cardinality(c.attrs)
-
-\* A conforming server's wire image.  style: [case: "asis"|"lower"|"upper", ows: whitespace after the colon].
-\* frames: <<text1, data1, text2, data2, ..., textN>> - odd elements are protocol text, even elements are
-\* body data (so the harness can substitute arbitrary byte values for the body symbols).
-NameIn(n, cs) == IF cs = "lower" THEN Lower(n) ELSE IF cs = "upper" THEN Upper(n) ELSE n
-RECURSIVE SrvHeaderBlock(_, _)
-SrvHeaderBlock(h, st) ==
-  IF h = <<>> THEN ""
-  ELSE NameIn(Head(h).n, st.case) \o ":" \o st.ows \o Head(h).v \o CRLF \o SrvHeaderBlock(Tail(h), st)
-SrvHead(ver, c, ph, h, st) == StatusLine(ver, c, ph) \o CRLF \o SrvHeaderBlock(h, st) \o CRLF
-
-RECURSIVE Sum(_)
-Sum(s) == IF s = <<>> THEN 0 ELSE Head(s) + Sum(Tail(s))
-RECURSIVE Zeros(_)
-Zeros(k) == IF k = 0 THEN "" ELSE "0" \o Zeros(k - 1)
-\* chunked coding (RFC 7230 4.1, no extensions, no trailers) of `body` cut into pieces of the sizes `comp`
-RECURSIVE ChunkFrames(_, _, _, _, _)
-ChunkFrames(body, comp, upper, pad, first) ==
-  IF comp = <<>> THEN << (IF first THEN "" ELSE CRLF) \o Zeros(pad) \o "0" \o CRLF \o CRLF >>
-  ELSE << (IF first THEN "" ELSE CRLF) \o Zeros(pad) \o Hex(Head(comp), upper) \o CRLF, Take(body, Head(comp)) >>
-       \o ChunkFrames(Drop(body, Head(comp)), Tail(comp), upper, pad, FALSE)
-
-\* all ways of writing n as an ordered sum of positive integers
-RECURSIVE Compositions(_)
-Compositions(n) == IF n = 0 THEN {<<>>} ELSE UNION { { <<k>> \o c : c \in Compositions(n - k) } : k \in 1..n }
-
------------------------------------------------------------------------------
-(* Denotation of a response message (RFC 7230: 3.1.2 status-line, 3.2 header fields, 3.3.3 body     *)
-(* length rules 1, 3, 5; 4.1 chunked).  Close-delimited bodies (rule 7) are outside C07: a message  *)
-(* without framing header denotes an empty body and leaves the rest of the stream untouched.        *)
-IsDigit(c) == c \in DOMAIN DecMap
-Bad == [ok |-> FALSE, version |-> "", code |-> 0, phrase |-> "", headers |-> <<>>, body |-> "", rest |-> ""]
-
-\* header-field = field-name ":" OWS field-value OWS ; returns <<>> for a malformed line
-DenoteHeaderLine(line) ==
-  LET c == Find(line, ":", 1) IN
-  IF c <= 1 \/ Find(Take(line, c - 1), SP, 1) # 0 THEN <<>>
-  ELSE << Hdr(Take(line, c - 1), TrimOWS(Drop(line, c))) >>
-
-RECURSIVE DenoteHeaders(_, _)
-\* returns [ok, headers, rest] ; `s` starts at a header line or at the blank line
-DenoteHeaders(s, acc) ==
-  IF StartsWith(s, CRLF) THEN [ok |-> TRUE, headers |-> acc, rest |-> Drop(s, 2)]
-  ELSE LET e == Find(s, CRLF, 1) IN
-       IF e = 0 THEN [ok |-> FALSE, headers |-> <<>>, rest |-> ""]
-       ELSE LET h == DenoteHeaderLine(Take(s, e - 1)) IN
-            IF h = <<>> THEN [ok |-> FALSE, headers |-> <<>>, rest |-> ""]
-            ELSE DenoteHeaders(Drop(s, e + 1), acc \o h)
-
-\* status-line = "HTTP/" DIGIT "." DIGIT SP 3DIGIT SP reason-phrase CRLF, then the header block
-DenoteHead(w) ==
-  LET e == Find(w, CRLF, 1) IN
-  IF e = 0 \/ e < 14 THEN Bad
-  ELSE LET sl == Take(w, e - 1) IN
-       IF ~(/\ Take(sl, 5) = "HTTP/" /\ IsDigit(At(sl, 6)) /\ At(sl, 7) = "." /\ IsDigit(At(sl, 8))
-            /\ At(sl, 9) = SP /\ IsDigit(At(sl, 10)) /\ IsDigit(At(sl, 11)) /\ IsDigit(At(sl, 12))
-            /\ At(sl, 13) = SP)
-       THEN Bad
-       ELSE LET hs == DenoteHeaders(Drop(w, e + 1), <<>>) IN
-            IF ~hs.ok THEN Bad
-            ELSE [ok |-> TRUE, version |-> Take(sl, 8), code |-> DecVal(SubSeq(sl, 10, 12)),
-                  phrase |-> Drop(sl, 13), headers |-> hs.headers, body |-> "", rest |-> hs.rest]
-
-RECURSIVE DenoteChunked(_, _)
-\* returns [ok, body, rest]
-DenoteChunked(s, acc) ==
-  LET e == Find(s, CRLF, 1) IN
-  IF e <= 1 THEN [ok |-> FALSE, body |-> "", rest |-> ""]
-  ELSE LET n == HexVal(Take(s, e - 1)) IN
-       IF n = NaN THEN [ok |-> FALSE, body |-> "", rest |-> ""]
-       ELSE IF n = 0
-            THEN IF SubSeq(s, e + 2, e + 3) = CRLF THEN [ok |-> TRUE, body |-> acc, rest |-> Drop(s, e + 3)]
-                 ELSE [ok |-> FALSE, body |-> "", rest |-> ""]
-            ELSE IF Len(s) >= e + 1 + n + 2 /\ SubSeq(s, e + 2 + n, e + 3 + n) = CRLF
-                 THEN DenoteChunked(Drop(s, e + 3 + n), acc \o SubSeq(s, e + 2, e + 1 + n))
-                 ELSE [ok |-> FALSE, body |-> "", rest |-> ""]
-
-\* The response a message denotes.  A chunked message is "reported as a plain body with its length":
-\* Transfer-Encoding is replaced by Content-Length.
-DenoteResp(w) ==
-  LET h == DenoteHead(w) IN
-  IF ~h.ok THEN Bad
-  ELSE IF Bodiless(h.code) THEN h
-  ELSE IF HasHdr(h.headers, "transfer-encoding") /\ Lower(FirstVal(h.headers, "transfer-encoding")) = "chunked"
-  THEN LET b == DenoteChunked(h.rest, "") IN
-       IF ~b.ok THEN Bad
-       ELSE [h EXCEPT !.headers = Without(h.headers, "transfer-encoding") \o <<Hdr("Content-Length", Dec(Len(b.body)))>>,
-                      !.body = b.body, !.rest = b.rest]
-  ELSE IF HasHdr(h.headers, "content-length")
-  THEN LET n == DecVal(FirstVal(h.headers, "content-length")) IN
-       IF n = NaN \/ n > Len(h.rest) THEN Bad
-       ELSE [h EXCEPT !.body = Take(h.rest, n), !.rest = Drop(h.rest, n)]
-  ELSE h
-
-\* w is a serialisation of r in the property's sense: status line with a registered phrase for the
-\* code, one line per header (same-name order kept), blank line, body - and nothing else.
-IsSerialisationOf(w, r) ==
-  LET h == DenoteHead(w) IN
-  /\ h.ok /\ h.version = r.version /\ h.code = r.code /\ h.phrase \in Phrases(r.code)
-  /\ SameHeaders(h.headers, r.headers) /\ h.rest = r.body
-
-\* constant-level lemma (checked by TLC over the bounded grammar in MC_HttpResp): parsing a rendered
-\* response that carries the right Content-Length, or no body, gives the response back
-LemmaRoundTrip(r) ==
-  (FramedOrEmpty(r) /\ (Bodiless(r.code) => r.body = "")) =>
-     \A ph \in Phrases(r.code) :
-        LET w == RenderResp(r, ph)
-            d == DenoteResp(w)
-        IN IsSerialisationOf(w, r) /\ d.ok /\ d.rest = "" /\ RespEq(d, r)
 
 -----------------------------------------------------------------------------
 (* Part 2: the code paths as a state machine                                                         *)
